@@ -106,6 +106,10 @@ PROVED_DETAIL = {
     "C02_parse_render_mon_dd_yyyy_12h": "Mon DD, YYYY hh:MM[ ]AM|PM, year >= 100",
     "C02_parse_render_ctime": "ctime(): 'Www Mon DD HH:MM:SS YYYY', day space-padded, year >= 100",
     "C02_parse_render_rfc_named": "RFC 2822 'Www, DD Mon YYYY HH:MM:SS GMT|UTC', year >= 100",
+    "C02_parse_render_misc": "YYYY-MM-DD / YYYY/MM/DD alone, HH:MM[:SS] alone, YYYY-MM-DD NNhNNmNNs (6 templates)",
+    "C02_parse_render_flag_dates": "DD/MM/YYYY (dayfirst), YY-MM-DD (yearfirst), MM/DD/YY, two-digit years within the window (9 templates)",
+    "C02_parse_render_iso_offset4": "YYYY-MM-DD{T, space}{HH:MM, HH:MM:SS}{+HHMM, -HHMM}",
+    "C02_parse_render_rfc_offset": "RFC 2822 'Www, DD Mon YYYY HH:MM:SS +HHMM', year >= 100",
     "C02_parse_render_iso_utc": "YYYY-MM-DD{T, space}HH:MM:SS + {Z, ' UTC', ' GMT'} (6 templates) -> UTC, when UTC/GMT are "
                                 "not local zone names",
     "C02_parse_render_iso_offset": "YYYY-MM-DDTHH:MM:SS + {+HH:MM, -HH:MM, +HH, -HH} (2 templates x sign), offsets "
@@ -121,7 +125,9 @@ def theorem_for(t):
     if kd == 1:
         return "C02_parse_render_ctime"
     if kd == 2:
-        return "C02_parse_render_rfc_named" if OFORMS[o] in ("OGMT", "OUTC") else None
+        if OFORMS[o] in ("OGMT", "OUTC"):
+            return "C02_parse_render_rfc_named"
+        return "C02_parse_render_rfc_offset" if OFORMS[o] == "OHHMM" else None
     D, J, T, O = DFORMS[d], JOINERS[j], TFORMS[tf], OFORMS[o]
     jt = (J, T)
     if O == "ONone":
@@ -147,7 +153,14 @@ def theorem_for(t):
             return "C02_parse_render_12h_hms"
         if D == "DMonDY" and J == "JSpace" and T == "T12HM":
             return "C02_parse_render_mon_dd_yyyy_12h"
+        if (D in ("DIso", "DSlashYMD") and jt == ("JNone", "TNone")) or (D == "DNone" and J == "JNone" and T in ("THM", "THMS")) \
+                or (D in ("DIso", "DSlashYMD") and jt == ("JSpace", "TWords")):
+            return "C02_parse_render_misc"
+        if D in ("DEU", "DYY", "DUSYY") and jt in (("JNone", "TNone"), ("JSpace", "THM"), ("JSpace", "THMS")):
+            return "C02_parse_render_flag_dates"
         return None
+    if D == "DIso" and J in ("JT", "JSpace") and T in ("THM", "THMS") and O == "OHHMM":
+        return "C02_parse_render_iso_offset4"
     if D == "DIso" and J in ("JT", "JSpace") and T == "THMS" and O in ("OZ", "OUTC", "OGMT"):
         return "C02_parse_render_iso_utc"
     if D == "DIso" and J in ("JT", "JSpace") and T in ("THM", "THMS") and O in ("OHH_MM", "OHH"):
